@@ -1,4 +1,4 @@
-(* GLUE: base err samp graph main *)
+(* GLUE: base err samp graph esir main *)
 (* Driver of component 'esir': event-driven SIR (Model/EventSIR.v).
    ESIR <graph> i0 r0 tmin tmax? full fuel <tables>          fast_nonMarkov_SIR with table rules
         tables: per node an optional duration, then per node per neighbour (adjacency
@@ -48,6 +48,20 @@ let run_mode (pr : 'a -> unit) (m : 'a samp) =
     List.iteri (fun i ds -> if i > 0 then out " ## "; run_one ds) paths
   | c -> failwith ("bad mode " ^ c)
 
+let run_mode_b (pr : 'a -> unit) (m : 'a bsamp) =
+  let run_one ds =
+    let (res, tr) = bexec m ds [] in
+    print_result pr res; print_draws ds; print_btrace tr in
+  match next () with
+  | "W" -> let ent = read_entropy () in run_one (bwalk m ent 4000)
+  | "D" -> run_one (nlist nq)
+  | "A" ->
+    let maxdraws = nint () in let maxpaths = nint () in
+    let delays = nlist nq in
+    let paths = bwalk_all m delays maxdraws maxpaths in
+    List.iteri (fun i ds -> if i > 0 then out " ## "; run_one ds) paths
+  | c -> failwith ("bad mode " ^ c)
+
 let run_esir () =
   let g = read_graph () in
   let i0 = nlist nn in let r0 = nlist nn in
@@ -81,7 +95,8 @@ let run_fsir () =
   let fuel = nat_of_int (nint ()) in
   if uses_edge_path g tau gamma then
     run_mode (fun (o, _) -> print_simout o) (fast_sir_edge g tau gamma i0 r0 rho tmin tmax full fuel)
-  else out "ERR ConstPathNotModelled | DRAWS | TRACE"
+  else
+    run_mode_b (fun (o, _) -> print_simout o) (fast_sir_const g tau gamma i0 r0 rho tmin tmax full fuel)
 
 let run_perc () =
   let g = read_graph () in
